@@ -3,6 +3,7 @@ package main
 import (
 	"bytes"
 	"fmt"
+	"net"
 	"sync"
 )
 
@@ -27,6 +28,39 @@ func genTCPConn(r *Rng, cfg []cfgKey, focus string) tcpConnSpec {
 		}
 		sp.Chunks = append(sp.Chunks, [2]int{n, int(r.U64() % 1000000)})
 	}
+	// destinations on local public-range and private-range addresses, and names resolved by the
+	// fake DNS: the default policy end to end
+	avail := ensureLocalAddrs()
+	pickLocal := func(cands []int) (int, bool) {
+		var ok []int
+		for _, k := range cands {
+			ip := tcpTargetIP(k)
+			need := []string{ip}
+			if k == 31 {
+				need = append(need, "10.99.0.1")
+			}
+			good := true
+			for _, x := range need {
+				if !net.ParseIP(x).IsLoopback() && !avail[x] {
+					good = false
+				}
+			}
+			if good {
+				ok = append(ok, k)
+			}
+		}
+		if len(ok) == 0 {
+			return 0, false
+		}
+		return ok[r.Intn(len(ok))], true
+	}
+	localKind := false
+	if (focus == "C05" && r.Chance(80)) || r.Chance(10) {
+		if k, ok := pickLocal([]int{4, 5, 6, 7, 8, 10, 11, 12, 13, 14, 15, 30, 31, 32}); ok {
+			sp.AKind, localKind = k, true
+			sp.Validate = k >= 30 || r.Chance(75)
+		}
+	}
 	sp.Coalesce = nch > 0 && r.Bool()
 	if nch >= 2 && r.Chance(30) {
 		sp.TFinFirst, sp.Fin = true, true
@@ -47,6 +81,12 @@ func genTCPConn(r *Rng, cfg []cfgKey, focus string) tcpConnSpec {
 	sel := r.Intn(100)
 	if sel < probeW+postW+dialW {
 		sp.TFinFirst = false // only a relayed connection can wait for the target's half-close
+	}
+	if localKind {
+		sel = 100 // an honest connection; what is tested is where it may go
+		if sp.Validate && !tcpKindPublic(sp.AKind) {
+			sp.Chunks, sp.Coalesce, sp.TFinFirst = nil, false, false // refused at dial time
+		}
 	}
 	switch c := sel; {
 	case c < probeW: // unauthenticated input
@@ -113,12 +153,18 @@ func genTCPConn(r *Rng, cfg []cfgKey, focus string) tcpConnSpec {
 }
 
 // cTCP: whole connections through the real StreamHandler on loopback sockets.
-func cTCP(ctx *Ctx, prop string) {
+func cTCP(ctx *Ctx, prop string) { cTCPInto(ctx, prop, 0, 0) }
+
+// cTCPInto runs n TCP cases (0 = the tier's default) and numbers its case files from shard0.
+func cTCPInto(ctx *Ctx, prop string, nCases int, shard0 int) {
 	r := ctx.Rng
 	ctx.Stats.Rule = "case = fresh key list + replay cache + 1..3 sequential connections through the real StreamHandler over loopback TCP with a scripted target: honest streams (4 ciphers, address types 1/3/4, payload chunkings 0..16383, coalesced or not, 3 socket segmentations, client FIN or keep-open, target speaks first or last), garbage / truncated / wrong-key / wrong-cipher probes, replays, bad address type, corrupted chunk mid-stream, refused and unreachable targets; observed: status, metric calls, byte counters, bytes at target and client, how and when the connection ends; non-trivial = distinct connection specs, all outcome classes must occur"
 	n := 110
 	if ctx.Thorough() {
 		n = 1200
+	}
+	if nCases > 0 {
+		n = nCases
 	}
 	type job struct {
 		spec tcpCaseSpec
@@ -154,7 +200,7 @@ func cTCP(ctx *Ctx, prop string) {
 	}
 	wg.Wait()
 	var terms []string
-	shard := 0
+	shard := shard0
 	classes := map[string]bool{}
 	for ji, j := range jobs {
 		var ct, ot []string
@@ -256,6 +302,24 @@ func tcpMonitors(ctx *Ctx, prop string, cs *tcpCaseSpec, i int, sp *tcpConnSpec,
 	} else if (ob.Status == "ERR_READ_ADDRESS" || ob.Status == "ERR_RELAY_CLIENT") && !sp.Fin && ob.Close != 3 {
 		ctx.Monitor("C06/post-auth-active-close", fmt.Sprintf("stream turned invalid after authentication (%s) and the server closed (class %d, %d ms) while the client kept the connection open", ob.Status, ob.Close, ob.CloseMs), rep)
 	}
+	// C05: the default policy, end to end
+	if sp.Validate && sp.Kind == "honest" {
+		name := fmt.Sprint("kind-", sp.AKind)
+		if sp.AKind >= 4 && sp.AKind <= 15 {
+			name = targetKinds[sp.AKind].name
+		} else if b, ok := dnsKindBase[sp.AKind]; ok {
+			name = "name-" + b
+		}
+		if !tcpKindPublic(sp.AKind) && ob.TargetHit {
+			ctx.Monitor("C05/tcp-connection-to-non-public-destination:"+name, fmt.Sprintf("with the default policy the server connected to %s (status %s)", tcpTargetIP(sp.AKind), ob.Status), rep)
+		}
+		if ob.SinkHit != "" {
+			ctx.Monitor("C05/tcp-connection-to-non-public-address-of-a-name:"+name, fmt.Sprintf("the %s name also resolves to %s and the server connected there", dnsKindBase[sp.AKind], ob.SinkHit), rep)
+		}
+		if tcpKindPublic(sp.AKind) && authenticated && sp.Corrupt == 0 && sp.ConnectOK && ob.Status != "OK" && !seenSalt[fmt.Sprintf("%d/%d/%d", sp.C, sp.S, sp.Seed)] {
+			ctx.Monitor("C05/public-destination-refused:"+name, "an allowed destination was not reached: "+ob.Status, rep)
+		}
+	}
 	// C02
 	if ob.Status == "OK" {
 		_, payload, _ := clientWire(sp, 0)
@@ -263,11 +327,17 @@ func tcpMonitors(ctx *Ctx, prop string, cs *tcpCaseSpec, i int, sp *tcpConnSpec,
 		if !bytes.Equal(ob.TargetGot, payload) {
 			ctx.Monitor("C02/upstream-not-intact", fmt.Sprintf("target received %d bytes (cksum %d), client sent %d (cksum %d)", len(ob.TargetGot), cksum(ob.TargetGot), len(payload), cksum(payload)), rep)
 		}
+		// the two directions are independent: what the target says reaches the client without
+		// waiting for the client to send or close (the harness' client half-closes only after 1.1 s)
+		if !sp.Fin && len(tout) > 0 && sp.Corrupt == 0 && (ob.FirstDownMs < 0 || ob.FirstDownMs > 900) {
+			ctx.Monitor("C02/downstream-waits-for-client", fmt.Sprintf("the target spoke at once but its first byte reached the silent client after %d ms (the client half-closed at 1100 ms)", ob.FirstDownMs), rep)
+		}
 		if !bytes.Equal(ob.ClientPlain, tout) {
 			ctx.Monitor("C02/downstream-not-intact", fmt.Sprintf("client decrypted %d bytes (cksum %d), target sent %d (cksum %d)", len(ob.ClientPlain), cksum(ob.ClientPlain), len(tout), cksum(tout)), rep)
 		}
 	}
-	if sp.Kind == "honest" && sp.Corrupt == 0 && sp.AKind != 9 && !sp.Validate && sp.ConnectOK {
+	validKind := sp.AKind <= 3 || (sp.AKind >= 4 && sp.AKind <= 15) || sp.AKind == 21 || (sp.AKind >= 30 && sp.AKind <= 32)
+	if sp.Kind == "honest" && sp.Corrupt == 0 && validKind && (!sp.Validate || tcpKindPublic(sp.AKind)) && sp.ConnectOK {
 		inCfg := false
 		for _, k := range cs.Cfg {
 			if k.C == sp.C && k.S == sp.S {
